@@ -80,9 +80,16 @@ let rd_list (f : unit -> 'a) : 'a list =
 let rd_opt (f : unit -> 'a) : 'a option =
   match next () with "_" -> None | "S" -> Some (f ()) | s -> failwith ("bad option tag " ^ s)
 let rd_colval () : colval = let u = rd_z () in let v = rd_sval () in { uoff = u; cv = v }
+(* a Go column map has no notion of trailing absent columns: canonical positional form *)
+let rec strip_trailing_none (l : colval option list) : colval option list =
+  match l with
+  | [] -> []
+  | x :: r -> (match strip_trailing_none r, x with
+               | [], None -> []
+               | r', _ -> x :: r')
 let rd_row () : row =
   let d = rd_bool () in let o = rd_z () in let c = rd_list (fun () -> rd_opt rd_colval) in
-  { del = d; doff = o; cols = c }
+  { del = d; doff = o; cols = strip_trailing_none c }
 let rd_cval (f : unit -> 'a) : 'a cval =
   let m = rd_z () in let t = rd_z () in let p = rd_z () in let v = rd_opt f in
   { md = m; tomb = t; prev = p; payload = v }
@@ -157,7 +164,7 @@ let pr_trace (tr : ('v req * bool) list) (opn : string) (cls : string) =
       | _ -> ()) (Stdlib.List.rev tr);
   pr cls
 
-type 'v runner = { runp : 'a. nat -> (z -> outcome) -> z option -> 'v bucket -> ('v, 'a) prog -> ('v bucket * 'a result) * ('v req * bool) list }
+type 'v runner = { runp : 'a. nat -> fault list -> z option -> 'v bucket -> ('v, 'a) prog -> ('v bucket * 'a result) * ('v req * bool) list }
 let kvhist (type v) (cfg : v cfg) (rn : v runner)
     (rd_payload : unit -> v) (pr_payload : z -> v option -> unit) : unit =
   nm_reset ();
@@ -166,14 +173,29 @@ let kvhist (type v) (cfg : v cfg) (rn : v runner)
   let conflicts = ref Z0 in
   let geth i = try Stdlib.List.assoc i !hs with Not_found -> failwith ("no_handle_" ^ string_of_int i) in
   let seth i h = hs := (i, h) :: Stdlib.List.remove_assoc i !hs in
+  let plan : fault list ref = ref [] in
+  let any_fault = ref false in
   let exec : 'a. (v, 'a) prog -> 'a result * (v req * bool) list = fun p ->
-    let ((b', r), tr) = rn.runp big_fuel no_faults None !b p in
-    b := b'; (r, tr) in
+    let ((b', r), tr) = rn.runp big_fuel !plan None !b p in
+    b := b'; plan := []; (r, tr) in
+  let rd_fault () : fault =
+    let kind = rd_z () in
+    let pf = (match next () with "c" -> PCur | "m" -> PMerged | "n" -> PNode | s -> failwith ("bad_pfx_" ^ s)) in
+    let nmt = next () in
+    let name = if nmt = "*" then None
+      else if nmt.[0] = '#' then Some (uncanon vn (int_of_string (String.sub nmt 1 (String.length nmt - 1))))
+      else Some (uncanon nn (int_of_string (String.sub nmt 1 (String.length nmt - 1)))) in
+    let occ = rd_z () in
+    let o = (match next () with "e" -> OErr | "g" -> OGone | s -> failwith ("bad_outcome_" ^ s)) in
+    { f_kind = kind; f_pfx = pf; f_name = name; f_occ = occ; f_out = o } in
   let pr_cv (c : v cval) = pr_z c.md; pr_z c.tomb; pr_vname c.prev; pr_payload c.md c.payload in
   let nops = rd_int () in
   for _ = 1 to nops do
     pr ";";
-    match next () with
+    let rec opname () = match next () with
+      | "F" -> plan := !plan @ [ rd_fault () ]; any_fault := true; opname ()
+      | s -> s in
+    match opname () with
     | "open" ->
         let h = rd_int () in let ro = rd_bool () in let w = rd_z () in let _seed = rd_z () in
         let only = (let n = rd_int () in
@@ -196,7 +218,8 @@ let kvhist (type v) (cfg : v cfg) (rn : v runner)
         let h = rd_int () in let corder = rd_vnames () in
         let (r, tr) = exec (commit corder (geth h)) in
         (match r with
-         | Done (h', nmo) -> seth h h'; pr "ok"; pr_vname (match nmo with Some n -> n | None -> Z0)
+         | Done (h', COk nmo) -> seth h h'; pr "ok"; pr_vname (match nmo with Some n -> n | None -> Z0)
+         | Done (h', CFail _) -> seth h h'; pr "err"
          | _ -> pr "err");
         pr_trace tr "[" "]"
     | "clone" ->
@@ -236,7 +259,7 @@ let kvhist (type v) (cfg : v cfg) (rn : v runner)
         pr "{n"; pr_list pr_nname (o_names !b.b_node); pr "}"
     | s -> failwith ("unknown_kv_op_" ^ s)
   done;
-  if cfg.c_mode = z_of_small 2 then (pr ";"; pr_z !conflicts)
+  if cfg.c_mode = z_of_small 2 && not !any_fault then (pr ";"; pr_z !conflicts)
 
 (* ---------- SQL histories (L2) ---------- *)
 let z_mul_int (x : z) (n : int) = Z.mul x (z_of_small n)
